@@ -691,5 +691,228 @@ theorem closed_of_final : ∀ (r : PR ι) {l : List (PEv ι)} {r' : PR ι} (ab :
             · exact Or.inr (by simp [h'])
           · simp at hx
 
+/-! ### C14: no system runs more than once -/
+
+theorem count_F_zero_of_not_inst (r : PR ι) {l : List (PEv ι)} {r' : PR ι} (h : steps r l = some r') (x : ι)
+    (hx : x ∉ insts r) : l.count (PEv.F x) = 0 := by
+  apply List.count_eq_zero.mpr
+  intro hm
+  exact hx (by simpa [PEv.sys] using steps_ev_sys r h _ hm)
+
+theorem count_F_le_one : ∀ (r : PR ι) {l : List (PEv ι)} {r' : PR ι}, steps r l = some r' →
+    (insts r).Nodup → ∀ x, l.count (PEv.F x) ≤ 1
+  | .nil, l, r', h, _, x => by
+    obtain ⟨hl, _⟩ := steps_of_done (r := (.nil : PR ι)) (by simp [status]) h; subst hl; simp
+  | .fin, l, r', h, _, x => by obtain ⟨hl, _⟩ := steps_fin h; subst hl; simp
+  | .dead, l, r', h, _, x => by obtain ⟨hl, _⟩ := steps_dead h; subst hl; simp
+  | .leaf s, l, r', h, _, x => by
+    rcases steps_leaf h with ⟨hl, _⟩ | ⟨hl, _⟩ | ⟨hl, _⟩ | ⟨hl, _⟩ <;> subst hl <;>
+      simp [List.count_cons] <;> split <;> omega
+  | .closing s, l, r', h, _, x => by
+    rcases steps_closing h with ⟨hl, _⟩ | ⟨hl, _⟩ | ⟨hl, _⟩ <;> subst hl <;> simp [List.count_cons]
+  | .seq a b, l, r', h, hnd, x => by
+    obtain ⟨la, lb, a', b', hl, ha, hb, _, _⟩ := steps_seq h
+    subst hl
+    simp only [insts] at hnd
+    obtain ⟨hna, hnb, hdis⟩ := List.nodup_append.mp hnd
+    rw [List.count_append]
+    have h1 := count_F_le_one a ha hna x
+    have h2 := count_F_le_one b hb hnb x
+    by_cases hxa : x ∈ insts a
+    · have : x ∉ insts b := fun hxb => hdis x hxa x hxb rfl
+      rw [count_F_zero_of_not_inst b hb x this]; omega
+    · rw [count_F_zero_of_not_inst a ha x hxa]; omega
+  | .par a b, l, r', h, hnd, x => by
+    obtain ⟨la, lb, a', b', hsh, ha, hb, _⟩ := steps_par h
+    simp only [insts] at hnd
+    obtain ⟨hna, hnb, hdis⟩ := List.nodup_append.mp hnd
+    rw [shuffle_count hsh]
+    have h1 := count_F_le_one a ha hna x
+    have h2 := count_F_le_one b hb hnb x
+    by_cases hxa : x ∈ insts a
+    · have : x ∉ insts b := fun hxb => hdis x hxa x hxb rfl
+      rw [count_F_zero_of_not_inst b hb x this]; omega
+    · rw [count_F_zero_of_not_inst a ha x hxa]; omega
+  | .scopeOpen s body, l, r', h, hnd, x => by
+    obtain ⟨lb, b', hb, hc⟩ := steps_scopeOpen h
+    simp only [insts, List.nodup_cons] at hnd
+    have h1 := count_F_le_one body hb hnd.2 x
+    rcases hc with ⟨hl, _⟩ | ⟨hl, _, _⟩ | ⟨hl, _, _⟩ <;> subst hl
+    · exact h1
+    · simpa [List.count_append, List.count_cons] using h1
+    · simpa [List.count_append, List.count_cons] using h1
+  | .scope s body, l, r', h, hnd, x => by
+    rcases steps_scope h with ⟨hl, _⟩ | ⟨l', hl, h'⟩
+    · subst hl; simp
+    · subst hl
+      obtain ⟨lb, b', hb, hc⟩ := steps_scopeOpen h'
+      simp only [insts, List.nodup_cons] at hnd
+      have h1 := count_F_le_one body hb hnd.2 x
+      have h0 : x = s → lb.count (PEv.F x) = 0 := fun hxs =>
+        count_F_zero_of_not_inst body hb x (by rw [hxs]; exact hnd.1)
+      have key : (PEv.F s :: lb).count (PEv.F x) ≤ 1 := by
+        simp only [List.count_cons]
+        by_cases hxs : x = s
+        · rw [h0 hxs]; simp [hxs]
+        · have : (PEv.F s == PEv.F x) = false := by simp [Ne.symm hxs]
+          simp [this]; exact h1
+      rcases hc with ⟨hl, _⟩ | ⟨hl, _, _⟩ | ⟨hl, _, _⟩ <;> subst hl
+      · exact key
+      · have : (PEv.F s :: (lb ++ [PEv.D s])).count (PEv.F x) = (PEv.F s :: lb).count (PEv.F x) := by
+          simp [List.count_cons, List.count_append]
+        rw [this]; exact key
+      · have : (PEv.F s :: (lb ++ [PEv.P s])).count (PEv.F x) = (PEv.F s :: lb).count (PEv.F x) := by
+          simp [List.count_cons, List.count_append]
+        rw [this]; exact key
+
 end PR
+
+/-! ### C14: whoever is ordered after an unwound system does not run -/
+
+theorem insts_toPR (t : Task ι) : (t.toPR).insts = t.sys := by
+  induction t with
+  | nil => rfl
+  | leaf s => rfl
+  | seq a b iha ihb => simp [Task.toPR, PR.insts, Task.sys, iha, ihb]
+  | par a b iha ihb => simp [Task.toPR, PR.insts, Task.sys, iha, ihb]
+  | scope s body ih => simp [Task.toPR, PR.insts, Task.sys, ih]
+
+theorem hasPanic_toPR (t : Task ι) : (t.toPR).hasPanic = false := by
+  induction t with
+  | nil => rfl
+  | leaf s => rfl
+  | seq a b iha ihb => simp [Task.toPR, PR.hasPanic, iha, ihb]
+  | par a b iha ihb => simp [Task.toPR, PR.hasPanic, iha, ihb]
+  | scope s body ih => simp [Task.toPR, PR.hasPanic, ih]
+
+open PR in
+theorem dependents_dont_start {t : Task ι} {x y : ι} (hb : Before t x y) :
+    ∀ {l : List (PEv ι)} {r' : PR ι}, steps t.toPR l = some r' → t.sys.Nodup → PEv.P x ∈ l → PEv.F y ∉ l := by
+  induction hb with
+  | @here a b x y hx hy =>
+    intro l r' h hnd hP hF
+    simp only [Task.toPR] at h
+    obtain ⟨la, lb, a', b', hl, ha, hb', _, hc⟩ := steps_seq h
+    subst hl
+    simp only [Task.sys] at hnd
+    obtain ⟨_, _, hdis⟩ := List.nodup_append.mp hnd
+    have hxb : x ∉ b.sys := fun h' => hdis x hx x h' rfl
+    have hya : y ∉ a.sys := fun h' => hdis y h' y hy rfl
+    have hPa : PEv.P x ∈ la := by
+      rcases List.mem_append.mp hP with h' | h'
+      · exact h'
+      · exact absurd (by simpa [PEv.sys, insts_toPR] using steps_ev_sys _ hb' _ h') hxb
+    have hFb : PEv.F y ∈ lb := by
+      rcases List.mem_append.mp hF with h' | h'
+      · exact absurd (by simpa [PEv.sys, insts_toPR] using steps_ev_sys _ ha _ h') hya
+      · exact h'
+    have hpan : hasPanic a' = true := (hasPanic_steps _ _ _ ha).mpr (Or.inr ⟨x, hPa⟩)
+    rcases hc with hc | hc
+    · subst hc; cases hFb
+    · rw [not_hasPanic_of_ok a' hc] at hpan; cases hpan
+  | @seqL a b x y hab ih =>
+    intro l r' h hnd hP hF
+    simp only [Task.toPR] at h
+    obtain ⟨la, lb, a', b', hl, ha, hb', _, _⟩ := steps_seq h
+    subst hl
+    simp only [Task.sys] at hnd
+    obtain ⟨hna, _, hdis⟩ := List.nodup_append.mp hnd
+    obtain ⟨hx, hy⟩ := before_mem hab
+    have hPa : PEv.P x ∈ la := by
+      rcases List.mem_append.mp hP with h' | h'
+      · exact h'
+      · exact absurd (by simpa [PEv.sys, insts_toPR] using steps_ev_sys _ hb' _ h') (fun h'' => hdis x hx x h'' rfl)
+    have hFa : PEv.F y ∈ la := by
+      rcases List.mem_append.mp hF with h' | h'
+      · exact h'
+      · exact absurd (by simpa [PEv.sys, insts_toPR] using steps_ev_sys _ hb' _ h') (fun h'' => hdis y hy y h'' rfl)
+    exact ih ha hna hPa hFa
+  | @seqR a b x y hab ih =>
+    intro l r' h hnd hP hF
+    simp only [Task.toPR] at h
+    obtain ⟨la, lb, a', b', hl, ha, hb', _, _⟩ := steps_seq h
+    subst hl
+    simp only [Task.sys] at hnd
+    obtain ⟨_, hnb, hdis⟩ := List.nodup_append.mp hnd
+    obtain ⟨hx, hy⟩ := before_mem hab
+    have hPb : PEv.P x ∈ lb := by
+      rcases List.mem_append.mp hP with h' | h'
+      · exact absurd (by simpa [PEv.sys, insts_toPR] using steps_ev_sys _ ha _ h') (fun h'' => hdis x h'' x hx rfl)
+      · exact h'
+    have hFb : PEv.F y ∈ lb := by
+      rcases List.mem_append.mp hF with h' | h'
+      · exact absurd (by simpa [PEv.sys, insts_toPR] using steps_ev_sys _ ha _ h') (fun h'' => hdis y h'' y hy rfl)
+      · exact h'
+    exact ih hb' hnb hPb hFb
+  | @parL a b x y hab ih =>
+    intro l r' h hnd hP hF
+    simp only [Task.toPR] at h
+    obtain ⟨la, lb, a', b', hsh, ha, hb', _⟩ := steps_par h
+    simp only [Task.sys] at hnd
+    obtain ⟨hna, _, hdis⟩ := List.nodup_append.mp hnd
+    obtain ⟨hx, hy⟩ := before_mem hab
+    have hPa : PEv.P x ∈ la := by
+      rcases (shuffle_mem hsh _).mp hP with h' | h'
+      · exact h'
+      · exact absurd (by simpa [PEv.sys, insts_toPR] using steps_ev_sys _ hb' _ h') (fun h'' => hdis x hx x h'' rfl)
+    have hFa : PEv.F y ∈ la := by
+      rcases (shuffle_mem hsh _).mp hF with h' | h'
+      · exact h'
+      · exact absurd (by simpa [PEv.sys, insts_toPR] using steps_ev_sys _ hb' _ h') (fun h'' => hdis y hy y h'' rfl)
+    exact ih ha hna hPa hFa
+  | @parR a b x y hab ih =>
+    intro l r' h hnd hP hF
+    simp only [Task.toPR] at h
+    obtain ⟨la, lb, a', b', hsh, ha, hb', _⟩ := steps_par h
+    simp only [Task.sys] at hnd
+    obtain ⟨_, hnb, hdis⟩ := List.nodup_append.mp hnd
+    obtain ⟨hx, hy⟩ := before_mem hab
+    have hPb : PEv.P x ∈ lb := by
+      rcases (shuffle_mem hsh _).mp hP with h' | h'
+      · exact absurd (by simpa [PEv.sys, insts_toPR] using steps_ev_sys _ ha _ h') (fun h'' => hdis x h'' x hx rfl)
+      · exact h'
+    have hFb : PEv.F y ∈ lb := by
+      rcases (shuffle_mem hsh _).mp hF with h' | h'
+      · exact absurd (by simpa [PEv.sys, insts_toPR] using steps_ev_sys _ ha _ h') (fun h'' => hdis y h'' y hy rfl)
+      · exact h'
+    exact ih hb' hnb hPb hFb
+  | @scope s body x y hab ih =>
+    intro l r' h hnd hP hF
+    simp only [Task.toPR] at h
+    simp only [Task.sys, List.nodup_cons] at hnd
+    obtain ⟨hx, hy⟩ := before_mem hab
+    have hxs : x ≠ s := fun e => hnd.1 (e ▸ hx)
+    have hys : y ≠ s := fun e => hnd.1 (e ▸ hy)
+    rcases steps_scope h with ⟨hl, _⟩ | ⟨l', hl, h'⟩
+    · subst hl; cases hP
+    · subst hl
+      obtain ⟨lb, b', hb', hc⟩ := steps_scopeOpen h'
+      have hP' : PEv.P x ∈ l' := by
+        rcases List.mem_cons.mp hP with h'' | h''
+        · cases h''
+        · exact h''
+      have hF' : PEv.F y ∈ l' := by
+        rcases List.mem_cons.mp hF with h'' | h''
+        · cases h''; exact absurd rfl hys
+        · exact h''
+      have hPb : PEv.P x ∈ lb := by
+        rcases hc with ⟨hl, _⟩ | ⟨hl, _, _⟩ | ⟨hl, _, _⟩ <;> subst hl
+        · exact hP'
+        · rcases List.mem_append.mp hP' with h'' | h''
+          · exact h''
+          · simp at h''
+        · rcases List.mem_append.mp hP' with h'' | h''
+          · exact h''
+          · simp at h''; exact absurd h'' hxs
+      have hFb : PEv.F y ∈ lb := by
+        rcases hc with ⟨hl, _⟩ | ⟨hl, _, _⟩ | ⟨hl, _, _⟩ <;> subst hl
+        · exact hF'
+        · rcases List.mem_append.mp hF' with h'' | h''
+          · exact h''
+          · simp at h''
+        · rcases List.mem_append.mp hF' with h'' | h''
+          · exact h''
+          · simp at h''
+      exact ih hb' hnd.2 hPb hFb
+
 end Shred
